@@ -68,7 +68,7 @@ class Build:
             if not mm:
                 continue
             names = re.findall(r"#\[kani::proof\][^\n]*\n(?:\s*#\[[^\n]*\n)*\s*fn\s+(\w+)", txt)
-            for m in re.finditer(r"^\s*\w+!\(\s*(\w+)\s*,", txt, re.M):
+            for m in re.finditer(r"^\s*\w+!\(\s*([a-z]_\w+)\s*,", txt, re.M):
                 names.append(m.group(1))
             for n in names:
                 self.hidx[n] = ("::".join(modpart.split("__")) + "::" + mm.group(1) + "::" + n, base,
@@ -160,6 +160,32 @@ def extract_playback_test(text):
     return code, name.group(1) if name else None
 
 
+def unwindset_args(build, name, hints):
+    """Per-loop unwinding bounds: hints maps a substring of the loop's function (as printed by
+    goto-instrument --show-loops) to a bound; loops not matched keep the harness's #[kani::unwind]."""
+    if not hints:
+        return []
+    import glob
+    cands = glob.glob(os.path.join(build.target, "kani", "*", "debug", "build", "ggrs", "*", "out", "*%d%s.out" % (len(name), name)))
+    if not cands:
+        raise EncodingError("unwindset: goto binary of harness %s not found" % name)
+    out = subprocess.run(["goto-instrument", "--show-loops", cands[0]], capture_output=True, text=True, errors="replace").stdout
+    pairs = []
+    lines = out.split("\n")
+    for i, l in enumerate(lines):
+        m = re.match(r"^Loop (\S+):\s*$", l)
+        if not m:
+            continue
+        desc = lines[i + 1] if i + 1 < len(lines) else ""
+        for pat, n in hints.items():
+            if pat in desc:
+                pairs.append("%s:%d" % (m.group(1), n))
+                break
+    if not pairs:
+        return []
+    return ["-Z", "unstable-options", "--cbmc-args", "--unwindset", ",".join(pairs)]
+
+
 def run_harness(build, spec, tier):
     """spec: dict(name, timeout, mem). Returns result dict."""
     name = spec["name"]
@@ -167,6 +193,7 @@ def run_harness(build, spec, tier):
     mem = spec.get("mem", 12)
     log = os.path.join(build.logs, name + ".log")
     cmd = ["cargo", "kani", "--target-dir", build.target] + KANI_FLAGS + ["--harness", build.fq(name), "--exact"]
+    cmd += unwindset_args(build, name, spec.get("unwindset"))
     rc, to, dt = _run(cmd, build.crate, log, timeout, mem)
     text = open(log, errors="replace").read()
     p = parse_kani_log(text)
@@ -221,7 +248,8 @@ def playback(build, spec, res, outdir):
     name = spec["name"]
     log = os.path.join(build.logs, name + ".playback.log")
     cmd = ["cargo", "kani", "--target-dir", build.target] + KANI_FLAGS + \
-          ["-Z", "concrete-playback", "--concrete-playback=print", "--harness", build.fq(name), "--exact"]
+          ["-Z", "concrete-playback", "--concrete-playback=print", "--harness", build.fq(name), "--exact"] + \
+          unwindset_args(build, name, spec.get("unwindset"))
     # trace generation needs the unsliced formula: give it more room than the verdict run
     rc, to, dt = _run(cmd, build.crate, log, spec.get("timeout", 600) * 3, max(32, spec.get("mem", 12) * 3))
     text = open(log, errors="replace").read()
